@@ -189,6 +189,10 @@ func c04Exprs(tier string) []string {
 		"//a[b and @x]", "//a[b or @y]", "//*[following-sibling::b]", "//*[preceding::a][ancestor::a]", "//*[a | b]", "//*[*/(a, b)]", "//*[contains(., '1')]",
 		"position()", "last()", "//*[position()]", "*[last() - 1]", "//b[last()]", "//b[position() < last()]", "//*[last()][1]", "*/*[last()]", "//b[position() = last() - 1]", "count(//b[last()])", "//*[b[last()]]", ".", "..", "/", "@*", "text()", "comment()", "node()", "self::a", "'lit'", "1 + 1", "true()",
 	)
+	if tier == "core" {
+		return out
+	}
+	out = out[:0]
 	// every node-set shape wrapped so that it is evaluated ON THE SHARED TREE
 	// (comparisons, arithmetic and boolean operators iterate their operands in
 	// place, stopping early on a match)
@@ -199,6 +203,16 @@ func c04Exprs(tier string) []string {
 	for _, p := range nodesets {
 		out = append(out, p+" = '1'", p+" = 'zz'", p+" != '1'", p+" > 0", "1 < "+p, p+" + 1", "-("+p+")", p+" and "+p, p+" or false()", "boolean("+p+")", "not("+p+")",
 			p+" = "+p, p+" = //b", "//@x = "+p, "string("+p+") = '1'", "count("+p+") = 1", "("+p+")[1] = '1'", "*["+p+" = '1']", "sum("+p+") > 1")
+	}
+	// every function over an argument that carries its own iteration state
+	for _, f := range []string{"count", "sum", "string", "string-length", "normalize-space", "name", "local-name", "number", "boolean", "not", "lower-case", "floor", "reverse"} {
+		for _, a := range []string{"(//b)[2]", "*[@x][1]", "(//b | //a)[last()]", "//*[position() > 1][1]", "*/*[1]"} {
+			out = append(out, f+"("+a+")", "//*["+f+"("+a+")]")
+		}
+	}
+	for _, a := range []string{"(//b)[2]", "*[@x][1]", "(//b | //a)[last()]"} {
+		out = append(out, "concat("+a+", 'x')", "contains("+a+", '1')", "starts-with("+a+", '1')", "substring("+a+", 1)", "substring-before("+a+", '1')", "translate("+a+", '1', '2')",
+			"string-join("+a+", ',')", "matches("+a+", '1')", "replace("+a+", '(1)', '$1x')", "ends-with("+a+", '1')", "substring-after("+a+", '1')")
 	}
 	if tier != "thorough" {
 		return out
@@ -212,13 +226,29 @@ func c04Exprs(tier string) []string {
 	return out
 }
 
-func histSpace(tier string) *explore.Space {
-	exprs := c04Exprs(tier)
+// histSpace explores depth-2 histories. part "core": one expression per
+// query-node type / closure over the FULL operation alphabet (2 documents x 4
+// context kinds); part "wrapped": every node-set shape under 19 operator
+// wrappers and every function over stateful arguments, over the operations of
+// both documents from the root and an inner element.
+func histSpace(tier, part string) *explore.Space {
+	exprs := c04Exprs("core")
 	ops := histOps()
+	if part == "wrapped" {
+		exprs = c04Exprs(tier)
+		var red []hop
+		for _, o := range ops {
+			cx := histCtxs(histDocs[o.Doc])
+			if o.Ctx == cx[0] || o.Ctx == cx[1] {
+				red = append(red, o)
+			}
+		}
+		ops = red
+	}
 	probes := histProbes()
 	depth := 2
 	return &explore.Space{
-		Name: fmt.Sprintf("Hist-depth%d", depth), Desc: fmt.Sprintf("every history of <= %d operations out of %d (Select/Evaluate x 2 documents x 4 context kinds x consume 0/1/all) followed by each of %d probes, per expression", depth, len(ops), len(probes)),
+		Name: fmt.Sprintf("Hist-%s-depth%d", part, depth), Desc: fmt.Sprintf("every history of <= %d operations out of %d (Select/Evaluate x 2 documents x 4 context kinds x consume 0/1/all) followed by each of %d probes, per expression", depth, len(ops), len(probes)),
 		Size:  len(exprs),
 		Label: func(i int) string { return exprs[i] },
 		Run: func(i int, w *explore.Worker) {
@@ -278,7 +308,7 @@ func histSpace(tier string) *explore.Space {
 
 // deep histories (depth 3) on a reduced operation alphabet
 func histSpace3(tier string) *explore.Space {
-	exprs := c04Exprs("quick")
+	exprs := append(c04Exprs("core"), c04Exprs("quick")...)
 	var ops []hop
 	for _, o := range histOps() {
 		if o.Doc == 0 && (o.Ctx == 0 || o.Ctx == histCtxs(histDocs[0])[1]) || o.Doc == 1 && o.Ctx == 0 && o.Consume != 0 {
@@ -321,6 +351,132 @@ func histSpace3(tier string) *explore.Space {
 	}
 }
 
+// ---- histories across documents that bind one prefix to different URIs ----
+
+var nsHistDocs = []*doc.Tree{
+	doc.Build([]doc.Spec{{K: "e", N: "r", C: []doc.Spec{{K: "e", N: "p:b", U: "u1", A: []doc.AttrS{{N: "p:x", U: "u1", V: "1"}}, C: []doc.Spec{{K: "t", V: "1"}}}, {K: "e", N: "q:b", U: "u2"}, {K: "e", N: "b"}}}}),
+	doc.Build([]doc.Spec{{K: "e", N: "r", C: []doc.Spec{{K: "e", N: "p:b", U: "u2", A: []doc.AttrS{{N: "p:x", U: "u2", V: "2"}}, C: []doc.Spec{{K: "t", V: "2"}}}, {K: "e", N: "q:b", U: "u1"}, {K: "e", N: "p:b", U: "u1"}}}}),
+}
+
+type nsHop struct {
+	Op      string
+	Doc     int
+	Ctx     int
+	Consume int
+}
+
+func (h nsHop) apply(e *xpath.Expr) eng.Outcome {
+	t := nsHistDocs[h.Doc]
+	var o eng.Outcome
+	func() {
+		defer func() {
+			if r := recover(); r != nil {
+				o = eng.Outcome{Kind: "panic", Msg: fmt.Sprint(r)}
+			}
+		}()
+		var it *xpath.NodeIterator
+		if h.Op == "select" {
+			it = e.Select(doc.NewNavNS(t, h.Ctx, nil))
+		} else {
+			v := e.Evaluate(doc.NewNavNS(t, h.Ctx, nil))
+			var ok bool
+			if it, ok = v.(*xpath.NodeIterator); !ok {
+				o = eng.FromValue(v, t)
+				return
+			}
+		}
+		out := []int{}
+		for (h.Consume < 0 || len(out) < h.Consume) && it.MoveNext() {
+			out = append(out, doc.At(it.Current()))
+		}
+		o = eng.Outcome{Kind: "nodes", Nodes: out}
+	}()
+	return o
+}
+
+// nsHistSpace: the navigator exposes namespace URIs; expressions use prefixed
+// name tests, compiled without and with a namespace map; every history of
+// <= 2 operations over both documents, then every probe.
+func nsHistSpace() *explore.Space {
+	type item struct {
+		s      string
+		withNS bool
+		ns     map[string]string
+	}
+	var items []item
+	for _, s := range []string{"//p:b", "p:b", "*/p:b", "//p:b/@p:x", "count(//p:b)", "string(//p:b)", "//*[p:b]", "//p:b[1]", "//q:b | //p:b", "//p:b = '1'", "name(//p:b)", "//@p:x", "descendant::p:b", "//b/preceding-sibling::p:b"} {
+		items = append(items, item{s, false, nil}, item{s, true, map[string]string{"p": "u1", "q": "u2"}}, item{s, true, map[string]string{"p": "u2", "q": "u2"}})
+	}
+	var ops []nsHop
+	for d := range nsHistDocs {
+		for _, c := range []int{0, 1} {
+			for _, k := range []int{0, 1, -1} {
+				ops = append(ops, nsHop{"select", d, c, k}, nsHop{"evaluate", d, c, k})
+			}
+		}
+	}
+	var probes []nsHop
+	for d := range nsHistDocs {
+		for _, c := range []int{0, 1} {
+			probes = append(probes, nsHop{"select", d, c, -1}, nsHop{"evaluate", d, c, -1})
+		}
+	}
+	compile := func(it item) *xpath.Expr {
+		e, err, _ := eng.Compile(it.s, it.withNS, it.ns)
+		if err != nil {
+			return nil
+		}
+		return e
+	}
+	return &explore.Space{
+		Name: "HistNS", Desc: "prefixed name tests on two documents binding the prefix to different URIs (navigator exposes URIs; Compile / CompileWithNS): every history of <= 2 operations, every probe", Size: len(items),
+		Label: func(i int) string { return fmt.Sprintf("%s ns=%v", items[i].s, items[i].ns) },
+		Run: func(i int, w *explore.Worker) {
+			it := items[i]
+			if compile(it) == nil {
+				w.InternalError("C04 namespace expression does not compile: " + it.s)
+				return
+			}
+			w.Sample(fmt.Sprintf("%s ns=%v", it.s, it.ns))
+			check := func(h []nsHop) {
+				for _, p := range probes {
+					w.Eval()
+					w.Count("transitions", int64(len(h)+1))
+					w.Count("traces_validated_against_impl", 1)
+					want := p.apply(compile(it))
+					e := compile(it)
+					for _, o := range h {
+						o.apply(e)
+					}
+					got := p.apply(e)
+					if len(h) > 0 {
+						w.NonTrivialCase(it.s)
+					}
+					if got.String() == want.String() {
+						w.EngOutcome("agree")
+						continue
+					}
+					w.EngOutcome("history-dependent")
+					var ops []string
+					for _, o := range h {
+						ops = append(ops, o.Op)
+					}
+					w.Violation(&report.Case{Kind: "item", Expr: fmt.Sprintf("%s ns=%v", it.s, it.ns), Op: fmt.Sprint("history ", h, " then ", p), Expected: want.String(), Got: got.String(), Class: "history",
+						Sig: "C04|NS|" + it.s + "|after:" + strings.Join(ops, ",") + "|probe:" + p.Op, Weight: len(h)*100 + len(it.s)})
+				}
+			}
+			check(nil)
+			for _, a := range ops {
+				check([]nsHop{a})
+				for _, b := range ops {
+					check([]nsHop{a, b})
+				}
+			}
+			w.RefOutcome("n/a")
+		},
+	}
+}
+
 func init() {
 	report.RegisterReplayer("history", func(c *report.Case) (string, bool, error) {
 		var h []hop
@@ -345,9 +501,9 @@ func init() {
 		MinRefOutcomes: 1,
 		Spaces: func(tier string) []*explore.Space {
 			if tier == "thorough" {
-				return []*explore.Space{histSpace(tier), histSpace3(tier)}
+				return []*explore.Space{histSpace(tier, "core"), histSpace(tier, "wrapped"), histSpace3(tier), nsHistSpace()}
 			}
-			return []*explore.Space{histSpace(tier)}
+			return []*explore.Space{histSpace(tier, "core"), histSpace(tier, "wrapped"), nsHistSpace()}
 		},
 	})
 }
